@@ -791,6 +791,18 @@ func c01Axes() []c01Axis {
 				return false
 			},
 			func(r *c01Rec) { r.Pubmed3 = false }),
+		// the text "/translation=" inside the value of another qualifier
+		// (neutralised to a text of the same length that keeps its '/' and its
+		// '=', so the wrapping and the other axes stay as they are)
+		c01RecAxis("translation-text-in-other-qualifier",
+			func(r *c01Rec) bool { return c01AnyQual(r, c01HasTransText) },
+			func(r *c01Rec) {
+				c01EachQual(r, func(_ *c01Feat, q *c01Qual) {
+					if c01HasTransText(q) {
+						q.Value = strings.ReplaceAll(q.Value, c01TransText, "/translatiox=")
+					}
+				})
+			}),
 		c01RecAxis("continuation-starts-with-slash",
 			func(r *c01Rec) bool {
 				return c01AnyQual(r, func(q *c01Qual) bool { return len(c01ContSlashWords(q, r.Width)) > 0 })
@@ -1107,6 +1119,23 @@ func c01Blame(f *c01File, fails func(g *c01File) bool) (string, c01File) {
 			break
 		}
 	}
+	// The text "/translation=" inside another qualifier's value is one shape
+	// whether or not the value still wraps once everything else is neutralised
+	// (the wrap point is merely where there is a blank to lose), and whether or
+	// not the text happens to start a continuation line (taking that '/' away
+	// takes the text away).
+	for _, n := range names {
+		if n == "translation-text-in-other-qualifier" {
+			var rest []string
+			for _, m := range names {
+				if m != "wrapped-value" && m != "continuation-starts-with-slash" {
+					rest = append(rest, m)
+				}
+			}
+			names = rest
+			break
+		}
+	}
 	if len(names) == 0 {
 		names = quantities
 	}
@@ -1308,6 +1337,7 @@ const (
 	c01VEmpty
 	c01VBare
 	c01VTranslation
+	c01VTransText
 	c01VShapes
 )
 
@@ -1315,7 +1345,19 @@ const (
 // enumeration over the keywords and the places); the random records use it.
 const c01VContKeyword = 100
 
-var c01VNames = []string{"plain", "slash", "equals", "slash+equals", "wrap", "wrap+slash+equals", "continuation-slash", "empty", "bare", "translation"}
+var c01VNames = []string{"plain", "slash", "equals", "slash+equals", "wrap", "wrap+slash+equals", "continuation-slash", "empty", "bare", "translation", "translation-text"}
+
+// c01TransText is the literal text a value of the translation-text shape
+// contains: the name of the one qualifier whose wrapped lines are glued
+// together without a blank, spelled inside the value of another qualifier
+// (values may contain '/' and '='). It is text there like any other.
+const c01TransText = "/translation="
+
+// c01HasTransText: a qualifier other than /translation whose value contains
+// the text "/translation=".
+func c01HasTransText(q *c01Qual) bool {
+	return q.Key != "translation" && strings.Contains(q.Value, c01TransText)
+}
 
 func c01Inject(rng *rand.Rand, text string, ch byte) string {
 	words := strings.Split(text, " ")
@@ -1350,6 +1392,16 @@ func c01MakeQual(rng *rand.Rand, key string, shape, width int) c01Qual {
 		return q
 	case c01VContKeyword:
 		return c01KeywordQual(rng, key, width, c01Pick(rng, c01AllKeywordWords))
+	case c01VTransText:
+		// a value of two or more lines with the text "/translation=" in front of
+		// one of its words: on its own, with letters after it as in a quoted
+		// qualifier, or inside a word
+		words := strings.Split(c01Text(rng, c01ValueAlpha, 70+rng.Intn(160)), " ")
+		w := []string{c01TransText, c01TransText + c01Word(rng, "ACDEFGHIKLMNPQRSTVWY", 3, 8), "(see" + c01TransText + ")"}[rng.Intn(3)]
+		at := rng.Intn(len(words))
+		words = append(words[:at], append([]string{w}, words[at:]...)...)
+		q.Value = strings.Join(words, " ")
+		return q
 	}
 	chars := 3 + rng.Intn(25)
 	if shape == c01VWrap || shape == c01VWrapSlashEquals || shape == c01VContSlash {
@@ -1631,7 +1683,7 @@ func c01RandRec(rng *rand.Rand, p c01Profile) c01Rec {
 	if rng.Intn(2) == 0 {
 		allowed = append(allowed, c01VWrap, c01VTranslation)
 		if slashOK && equalsOK {
-			allowed = append(allowed, c01VWrapSlashEquals)
+			allowed = append(allowed, c01VWrapSlashEquals, c01VTransText)
 		}
 		if rng.Intn(3) == 0 {
 			allowed = append(allowed, c01VContSlash)
@@ -2127,10 +2179,10 @@ func TestVerifC01(t *testing.T) {
 
 	dom := "independent NCBI-layout writer (LOCUS columns 13-28/30-40/48-53/56-63/65-67/69-79, 12-column keyword field, feature key column 6, location/qualifier column 22, wrapping at 79 or 80 columns, ORIGIN 60/10); "
 	shapeDom := "exhaustive over shape: sequence length {7,12,345,1234,12345,100000} (1 to 6 digits) x 1 or 2 features x qualifiers per feature {0,1,2} x value shape {" + strings.Join(c01VNames, ",") +
-		"} x location on {1,2,3} lines x final newline {yes,no}, plus lengths {1,9,10,60,61,99,100,120,999,1000,9999,10000,99999} and locus names of 1..16 characters and the 4 molecule types x 2 topologies on a plain record, plus " + strconv.Itoa(len(c01KeywordNames)) +
+		"} (translation-text = a /note or /product value of 70..252 characters, laid out on two or more lines, that contains the literal text /translation= in front of one of its words: on its own, followed by 3..8 letters, or as (see/translation=)) x location on {1,2,3} lines x final newline {yes,no}, plus lengths {1,9,10,60,61,99,100,120,999,1000,9999,10000,99999} and locus names of 1..16 characters and the 4 molecule types x 2 topologies on a plain record, plus " + strconv.Itoa(len(c01KeywordNames)) +
 		" lower-case locus names that contain a molecule-type, topology or division word (dnak_transcript, ssu_rdna_tx, mrna_7, trna_leu, rrna16s, linearized_x, circular9, genomic_dna_1, bct_syn, linear, circular, dna, mrna, est_linear_rrna, ...) x 4 molecule types x 2 topologies x all 18 divisions on a plain 345-letter record, plus keyword-like continuation lines: each of the words {" + strings.Join(c01AllKeywordWords, ",") +
 		"} as the first word of an indented continuation line (every word in every place, so each word occurs above as well as below the real line of that keyword) of {a wrapped qualifier value, DEFINITION, KEYWORDS, SOURCE, the ORGANISM lineage, COMMENT, DBLINK, and AUTHORS, TITLE, JOURNAL, REMARK of the first of two references} x wrapping at {79,80} columns on a 345-letter record with two features, two complete references, DBLINK and COMMENT; "
-	randDom := fmt.Sprintf("plus %d seeded-random records: length 1..100000 (digit count uniform), locus name 1..16 lower-case characters, DNA/mRNA/tRNA/rRNA, linear/circular, 0..40 features with 0..5 qualifiers (values over printable ASCII without the double quote, single-spaced words, up to 230 characters, translations up to 260), locations a..b, complement, join, complement(join), partial, single base, join of up to 40 ranges on several lines, 0..5 references with optional TITLE/PUBMED/REMARK, COMMENT/DBLINK/PROJECT blocks, metadata texts to 400 characters, in about one record in six wrapped qualifier values and in one record in five a keyword block or reference field with a continuation line whose first word is one of the keyword words above; every 25th random record is read through Read from a temporary file; ", nRandRec)
+	randDom := fmt.Sprintf("plus %d seeded-random records: length 1..100000 (digit count uniform), locus name 1..16 lower-case characters, DNA/mRNA/tRNA/rRNA, linear/circular, 0..40 features with 0..5 qualifiers (values over printable ASCII without the double quote, single-spaced words, up to 230 characters, translations up to 260), locations a..b, complement, join, complement(join), partial, single base, join of up to 40 ranges on several lines, 0..5 references with optional TITLE/PUBMED/REMARK, COMMENT/DBLINK/PROJECT blocks, metadata texts to 400 characters, in about one record in six wrapped qualifier values, in about one record in eight values of the translation-text shape above (up to 252 characters, under any of the 14 qualifier names), and in one record in five a keyword block or reference field with a continuation line whose first word is one of the keyword words above; every 25th random record is read through Read from a temporary file; ", nRandRec)
 	runs := []*verifRun{
 		newVerifRun("C01", "io/genbank.Parse/panic-free", dom+shapeDom+randDom+"every case counts"),
 		newVerifRun("C01", "io/genbank.Parse/post/origin", dom+shapeDom+randDom+"every case counts (length >= 1)"),
